@@ -96,7 +96,9 @@ func ruleBytewiseShortening(p *Prog, r *Report, rule string) {
 		r.Check(scan >= 1, fnName(fn), "common-prefix-scan", "i is the length of the common prefix (scan while a[i] == b[i])", "no a[i] == b[i] scan", p.Pos(fn.Pos()))
 	}
 	if fn := resolveFn(p, r, "leveldb/comparer", "bytesComparer.Successor"); fn != nil {
-		not255 := cmpAtom("b[i]!=0xff", token.NEQ, func(v ssa.Value) bool { return elemOf("b")(v) || func() bool { _, ok := stripConv(v).(*ssa.UnOp); return ok }() }, mConstInt(255))
+		not255 := cmpAtom("b[i]!=0xff", token.NEQ, func(v ssa.Value) bool {
+			return elemOf("b")(v) || func() bool { _, ok := stripConv(v).(*ssa.UnOp); return ok }()
+		}, mConstInt(255))
 		checkGuard(p, r, GuardSpec{Rule: "successor-no-wrap", Fn: fn, Target: retNonNil, TargetDesc: "returning a shortened successor", Atoms: []Atom{not255}, G: func(a []bool) bool { return a[0] }, GDesc: "the incremented byte is not 0xff", MinTargets: 1})
 	}
 }
